@@ -31,18 +31,23 @@ type workload struct {
 	dup      int
 	reorder  bool
 	feedback bool
+	backlog  int // packets queued up front (pacing interceptor driven exactly at its rate)
 }
 
 var workloads = []workload{
-	{"in-order+feedback", 0, 0, false, true},
-	{"in-order/no-feedback", 0, 0, false, false},
-	{"loss5+feedback", 5, 0, false, true},
-	{"loss5/no-feedback", 5, 0, false, false},
-	{"dup+reorder+feedback", 2, 5, true, true},
-	{"dup+reorder/no-feedback", 2, 5, true, false},
+	{"in-order+feedback", 0, 0, false, true, 0},
+	{"in-order/no-feedback", 0, 0, false, false, 0},
+	{"loss5+feedback", 5, 0, false, true, 0},
+	{"loss5/no-feedback", 5, 0, false, false, 0},
+	{"dup+reorder+feedback", 2, 5, true, true, 0},
+	{"dup+reorder/no-feedback", 2, 5, true, false, 0},
 }
 
-func nSteady() int { return len(zoo.All) * len(workloads) }
+// backlogWorkload keeps the pacing interceptor's queue non-empty for the whole run: the pacer
+// rate equals what the driver sends (two packets = 1056 bits per virtual millisecond).
+var backlogWorkload = workload{name: "standing-backlog/at-pacer-rate", backlog: 300}
+
+func nSteady() int { return len(zoo.All)*len(workloads) + 1 }
 
 func cases(tier string) int { return nSteady() + len(zoo.All) } // + one churn case per kind
 
@@ -51,6 +56,10 @@ func TestCheck(t *testing.T) {
 }
 
 func run(c *vf.Case) {
+	if c.Idx == nSteady()-1 {
+		runSteady(c, zoo.Pacing, backlogWorkload)
+		return
+	}
 	if c.Idx < nSteady() {
 		runSteady(c, zoo.All[c.Idx%len(zoo.All)], workloads[c.Idx/len(zoo.All)])
 		return
@@ -106,6 +115,7 @@ type driver struct {
 	payload []byte
 	step    int
 	rng     *vf.Rand
+	outGaps bool // the outgoing streams have occasional sequence discontinuities too
 	single  bool // only one remote stream carries traffic (the jitter buffer interceptor owns ONE buffer)
 }
 
@@ -130,6 +140,9 @@ func newDriver(c *vf.Case, b *zoo.Built) *driver {
 
 func (d *driver) write(st int) {
 	d.lseq[st]++
+	if d.outGaps && d.rng.Intn(200) == 0 {
+		d.lseq[st] += uint16(d.rng.Pick(1, 2, 65535)) // the sender skips a number / repeats one
+	}
 	h := rtp.Header{Version: 2, PayloadType: 96, SequenceNumber: d.lseq[st], Timestamp: d.ts, SSRC: uint32(1000 * (st + 1))}
 	if st == 0 {
 		d.twcc++
@@ -257,7 +270,7 @@ func runSteady(c *vf.Case, kind zoo.Kind, wl workload) {
 	var pts []heapPoint
 	var desc string
 	c.Bubble(func() {
-		b, err := zoo.Build(c.R, kind, zoo.Opts{HighRates: true})
+		b, err := zoo.Build(c.R, kind, zoo.Opts{HighRates: wl.backlog == 0, PacingRate: 1_056_000})
 		if err != nil {
 			c.Violation("build/"+kind.String(), "%v", err)
 			return
@@ -265,6 +278,12 @@ func runSteady(c *vf.Case, kind zoo.Kind, wl workload) {
 		desc = b.Desc
 		d := newDriver(c, b)
 		d.single = kind == zoo.JitterBuffer
+		d.outGaps = wl.loss > 0 || wl.dup > 0
+		if wl.backlog > 0 {
+			for i := 0; i < wl.backlog; i++ { // a standing, bounded backlog in front of the pacer
+				d.write(i % 2)
+			}
+		}
 		pts = append(pts, measure())
 		for p := 0; p < 6; p++ {
 			d.runSteps(n, wl)
@@ -287,7 +306,10 @@ func runSteady(c *vf.Case, kind zoo.Kind, wl workload) {
 	threshold := int64(max(256<<10, 4*3*n))
 	monotone := pts[3].Objects < pts[4].Objects && pts[4].Objects < pts[5].Objects && pts[5].Objects < pts[6].Objects
 	c.Max("max_steady_growth_bytes", max(0, growth))
-	if growth > threshold && monotone {
+	// a single growing slice shows as HeapAlloc growth in (amortised) jumps with a constant object
+	// count: growth far above any allocator noise is decisive on its own
+	big := growth > int64(max(2<<20, 32*3*n))
+	if (growth > threshold && monotone) || big {
 		c.Violation(fmt.Sprintf("steady-growth/%s/%s", kind, fbClass(wl)),
 			"interceptor %s, workload %s: retained heap after forced GC keeps growing in steady state: per-phase HeapAlloc KiB %v (phase = %d packet steps), objects %d -> %d -> %d -> %d; growth phases 3..6 = %d bytes = %.1f B per packet step (threshold %d)",
 			desc, wl.name, series, n, pts[3].Objects, pts[4].Objects, pts[5].Objects, pts[6].Objects, growth, float64(growth)/float64(3*n), threshold)
